@@ -1,1 +1,477 @@
+//! Reference model of PCT, written from the property statement: a strict priority list, a set of
+//! change points counted in multi-choice steps, "demote = move to lowest".  Plus: the read-only
+//! snapshot of the real scheduler (obtained through its derived `Debug` output — no hook needed),
+//! the statement-level behavioural oracle (NFA over all priority orders), and the exhaustive
+//! enumeration of the model for the probability bound.
 
+use crate::tree::{ATree, CounterProg};
+use std::collections::BTreeSet;
+
+// ------------------------------------------------------------------------------------------------
+// model
+// ------------------------------------------------------------------------------------------------
+
+#[derive(Clone, Debug)]
+pub struct PctModel {
+    /// task ids, highest priority first
+    pub order: Vec<u8>,
+    pub change_points: Vec<usize>,
+    /// multi-choice steps taken in the current execution
+    pub steps: usize,
+    /// running estimate of k
+    pub max_steps: usize,
+}
+
+impl PctModel {
+    pub fn demote(&mut self, t: u8) {
+        if let Some(p) = self.order.iter().position(|x| *x == t) {
+            let v = self.order.remove(p);
+            self.order.push(v);
+        }
+    }
+    pub fn knows(&self, t: u8) -> bool {
+        self.order.contains(&t)
+    }
+    /// One decision. All offered tasks must be known to the model.
+    pub fn decide(&mut self, offered: &[u8], current: Option<u8>, yielding: bool) -> u8 {
+        if offered.len() > 1 {
+            if self.change_points.contains(&self.steps) || yielding {
+                if let Some(c) = current {
+                    self.demote(c);
+                }
+            }
+            self.steps += 1;
+            if self.steps > self.max_steps {
+                self.max_steps = self.steps;
+            }
+        }
+        *self.order.iter().find(|t| offered.contains(t)).expect("offered task unknown to the model")
+    }
+}
+
+// ------------------------------------------------------------------------------------------------
+// snapshot of the real scheduler via Debug
+// ------------------------------------------------------------------------------------------------
+
+#[derive(Clone, Debug, PartialEq, Eq)]
+pub struct Snapshot {
+    /// (task id, priority value)
+    pub priorities: Vec<(usize, usize)>,
+    pub change_points: Vec<usize>,
+    pub steps: usize,
+    pub max_steps: usize,
+    pub next_priority: usize,
+    pub iterations: usize,
+}
+
+impl Snapshot {
+    /// ids ordered by priority value (lowest value = highest priority)
+    pub fn order(&self) -> Vec<u8> {
+        let mut v = self.priorities.clone();
+        v.sort_by_key(|(_, p)| *p);
+        v.into_iter().map(|(t, _)| t as u8).collect()
+    }
+    pub fn distinct_priorities(&self) -> bool {
+        let s: BTreeSet<usize> = self.priorities.iter().map(|(_, p)| *p).collect();
+        s.len() == self.priorities.len()
+    }
+}
+
+fn field_usize(s: &str, name: &str) -> Option<usize> {
+    // match ", name: " or "{ name: " so that `steps` does not match `max_steps`
+    for pre in [", ", "{ "] {
+        let pat = format!("{}{}: ", pre, name);
+        if let Some(i) = s.find(&pat) {
+            let rest = &s[i + pat.len()..];
+            let end = rest.find(|c: char| !c.is_ascii_digit()).unwrap_or(rest.len());
+            return rest[..end].parse().ok();
+        }
+    }
+    None
+}
+
+pub fn parse_snapshot(dbg: &str) -> Option<Snapshot> {
+    let pi = dbg.find("priorities: {")? + "priorities: {".len();
+    let pe = pi + dbg[pi..].find('}')?;
+    let mut priorities = Vec::new();
+    for ent in dbg[pi..pe].split(", ") {
+        let ent = ent.trim();
+        if ent.is_empty() {
+            continue;
+        }
+        // "TaskId(3): 7"  or  "\"name\"(3): 7"
+        let colon = ent.rfind("): ")?;
+        let open = ent[..colon].rfind('(')?;
+        let id: usize = ent[open + 1..colon].parse().ok()?;
+        let pr: usize = ent[colon + 3..].trim().parse().ok()?;
+        priorities.push((id, pr));
+    }
+    let ci = dbg.find("change_points: [")? + "change_points: [".len();
+    let ce = ci + dbg[ci..].find(']')?;
+    let mut change_points = Vec::new();
+    for c in dbg[ci..ce].split(", ") {
+        let c = c.trim();
+        if !c.is_empty() {
+            change_points.push(c.parse().ok()?);
+        }
+    }
+    Some(Snapshot {
+        priorities,
+        change_points,
+        steps: field_usize(dbg, "steps")?,
+        max_steps: field_usize(dbg, "max_steps")?,
+        next_priority: field_usize(dbg, "next_priority")?,
+        iterations: field_usize(dbg, "iterations")?,
+    })
+}
+
+// ------------------------------------------------------------------------------------------------
+// statement-level behavioural oracle
+// ------------------------------------------------------------------------------------------------
+
+#[derive(Clone, Debug)]
+pub struct Decision {
+    pub offered: Vec<u8>,
+    pub current: Option<u8>,
+    pub yielding: bool,
+    pub chosen: u8,
+}
+
+pub fn permutations(n: usize) -> Vec<Vec<u8>> {
+    fn rec(cur: &mut Vec<u8>, used: &mut Vec<bool>, n: usize, out: &mut Vec<Vec<u8>>) {
+        if cur.len() == n {
+            out.push(cur.clone());
+            return;
+        }
+        for i in 0..n {
+            if !used[i] {
+                used[i] = true;
+                cur.push(i as u8);
+                rec(cur, used, n, out);
+                cur.pop();
+                used[i] = false;
+            }
+        }
+    }
+    let mut out = Vec::new();
+    rec(&mut Vec::new(), &mut vec![false; n], n, &mut out);
+    out
+}
+
+#[inline]
+fn pack(o: &[u8]) -> u32 {
+    let mut v = 0u32;
+    for (i, t) in o.iter().enumerate() {
+        v |= (*t as u32) << (4 * i);
+    }
+    v
+}
+
+#[inline]
+fn demote_packed(o: u32, n: usize, t: u8) -> u32 {
+    let mut out = 0u32;
+    let mut k = 0;
+    for i in 0..n {
+        let x = ((o >> (4 * i)) & 0xF) as u8;
+        if x != t {
+            out |= (x as u32) << (4 * k);
+            k += 1;
+        }
+    }
+    if k < n {
+        out |= (t as u32) << (4 * k);
+    }
+    out
+}
+
+#[inline]
+fn top_packed(o: u32, n: usize, offered_mask: u32) -> u8 {
+    for i in 0..n {
+        let x = (o >> (4 * i)) & 0xF;
+        if offered_mask & (1 << x) != 0 {
+            return x as u8;
+        }
+    }
+    0xFF
+}
+
+/// Is the decision trace consistent with SOME strict priority order over ids `0..n` (n <= 8) that
+/// changes only when the running task yields (it moves to the lowest priority) or at no more than
+/// `depth - 1` change points, each of which moves only `current` to the lowest priority?
+/// (No task creation: all ids below 16 have a priority from the start.)  Ok(number of surviving
+/// candidates) or Err(index of the first decision that no candidate explains).
+pub fn consistent_with_some_order(trace: &[Decision], n: usize, depth: usize, perms: &[Vec<u8>]) -> Result<usize, usize> {
+    debug_assert!(n <= 8 && perms.first().map(|p| p.len()) == Some(n));
+    // candidate = (packed order, change points used)
+    let mut cands: Vec<(u32, u8)> = perms.iter().map(|p| (pack(p), 0u8)).collect();
+    let mut next: Vec<(u32, u8)> = Vec::with_capacity(cands.len() * 2);
+    for (i, d) in trace.iter().enumerate() {
+        next.clear();
+        let mut mask = 0u32;
+        for t in &d.offered {
+            mask |= 1 << *t;
+        }
+        let multi = d.offered.len() > 1;
+        for &(o, used) in &cands {
+            if multi && d.yielding {
+                let o2 = match d.current {
+                    Some(c) => demote_packed(o, n, c),
+                    None => o,
+                };
+                if top_packed(o2, n, mask) == d.chosen {
+                    next.push((o2, used));
+                }
+            } else {
+                if top_packed(o, n, mask) == d.chosen {
+                    next.push((o, used));
+                }
+                if multi {
+                    if let Some(c) = d.current {
+                        if (used as usize) + 1 < depth {
+                            let o2 = demote_packed(o, n, c);
+                            if o2 != o && top_packed(o2, n, mask) == d.chosen {
+                                next.push((o2, used + 1));
+                            }
+                        }
+                    }
+                }
+            }
+        }
+        if next.is_empty() {
+            return Err(i);
+        }
+        next.sort_unstable();
+        next.dedup();
+        std::mem::swap(&mut cands, &mut next);
+    }
+    Ok(cands.len())
+}
+
+// ------------------------------------------------------------------------------------------------
+// bug programs and the exact hit probability of the model
+// ------------------------------------------------------------------------------------------------
+
+/// An event = (task, index of the step within the task); a constraint (a, b) = a happens before b.
+pub type Event = (u8, u8);
+pub type Constraint = (Event, Event);
+
+pub struct ProgInfo {
+    pub prog: CounterProg,
+    pub tree: ATree,
+    /// arena ids of the leaves
+    pub leaves: Vec<u16>,
+    /// for every leaf: position of every event in the schedule, indexed [task][step]
+    pub pos: Vec<Vec<Vec<u8>>>,
+    /// number of multi-choice decisions on the path to each leaf
+    pub multi: Vec<usize>,
+    /// settled estimate of k: the maximum over all schedules
+    pub k: usize,
+    pub leaf_index: Vec<u32>,
+}
+
+impl ProgInfo {
+    pub fn new(prog: CounterProg) -> ProgInfo {
+        let tree = prog.tree();
+        let leaves = tree.cut_ends(usize::MAX);
+        let n = prog.n();
+        let mut pos = Vec::new();
+        let mut multi = Vec::new();
+        let mut leaf_index = vec![u32::MAX; tree.nodes.len()];
+        for (li, l) in leaves.iter().enumerate() {
+            leaf_index[*l as usize] = li as u32;
+            // walk up to collect the path
+            let mut path: Vec<(u16, u8)> = Vec::new(); // (parent node, pos in parent)
+            let mut at = *l;
+            while tree.nodes[at as usize].parent != u16::MAX {
+                let p = tree.nodes[at as usize].parent;
+                path.push((p, tree.nodes[at as usize].pos_in_parent));
+                at = p;
+            }
+            path.reverse();
+            let mut done = vec![0u8; n];
+            let mut ps: Vec<Vec<u8>> = (0..n).map(|i| vec![0u8; prog.total(i) as usize]).collect();
+            let mut m = 0usize;
+            for (step, (node, j)) in path.iter().enumerate() {
+                let nd = &tree.nodes[*node as usize];
+                if nd.arity > 1 {
+                    m += 1;
+                }
+                let t = nd.ids[*j as usize] as usize;
+                ps[t][done[t] as usize] = step as u8;
+                done[t] += 1;
+            }
+            pos.push(ps);
+            multi.push(m);
+        }
+        let k = multi.iter().copied().max().unwrap_or(0);
+        ProgInfo {
+            prog,
+            tree,
+            leaves,
+            pos,
+            multi,
+            k,
+            leaf_index,
+        }
+    }
+
+    pub fn events(&self) -> Vec<Event> {
+        let mut v = Vec::new();
+        for t in 0..self.prog.n() {
+            for i in 0..self.prog.total(t) {
+                v.push((t as u8, i));
+            }
+        }
+        v
+    }
+
+    /// all cross-task constraints
+    pub fn constraints(&self) -> Vec<Constraint> {
+        let ev = self.events();
+        let mut v = Vec::new();
+        for a in &ev {
+            for b in &ev {
+                if a.0 != b.0 {
+                    v.push((*a, *b));
+                }
+            }
+        }
+        v
+    }
+
+    /// bitset (over leaves) of the schedules that satisfy the constraint
+    pub fn sat(&self, c: &Constraint) -> u128 {
+        let mut s = 0u128;
+        for (li, ps) in self.pos.iter().enumerate() {
+            if ps[c.0 .0 as usize][c.0 .1 as usize] < ps[c.1 .0 as usize][c.1 .1 as usize] {
+                s |= 1u128 << li;
+            }
+        }
+        s
+    }
+
+    /// Run the model from (order, change points) with a settled estimate; returns the leaf index.
+    pub fn model_leaf(&self, order: &[u8], cps: &[usize], transitions: &mut u64) -> u32 {
+        let mut m = PctModel {
+            order: order.to_vec(),
+            change_points: cps.to_vec(),
+            steps: 0,
+            max_steps: self.k,
+        };
+        let mut at = 0u16;
+        let mut current: Option<u8> = None;
+        loop {
+            let nd = &self.tree.nodes[at as usize];
+            if nd.arity == 0 {
+                return self.leaf_index[at as usize];
+            }
+            let off = &nd.ids[..nd.arity as usize];
+            let c = m.decide(off, current, nd.yielding);
+            *transitions += 1;
+            let j = off.iter().position(|x| *x == c).unwrap();
+            current = Some(c);
+            at = nd.kids[j];
+        }
+    }
+}
+
+/// all subsets of {1, .., k-1} of size r, each sorted ascending
+pub fn change_point_sets(k: usize, r: usize) -> Vec<Vec<usize>> {
+    fn rec(start: usize, k: usize, r: usize, cur: &mut Vec<usize>, out: &mut Vec<Vec<usize>>) {
+        if cur.len() == r {
+            out.push(cur.clone());
+            return;
+        }
+        for v in start..k {
+            cur.push(v);
+            rec(v + 1, k, r, cur, out);
+            cur.pop();
+        }
+    }
+    let mut out = Vec::new();
+    rec(1, k, r, &mut Vec::new(), &mut out);
+    out
+}
+
+/// number of change points the statement / implementation uses for depth d with estimate k
+pub fn num_points(d: usize, k: usize) -> usize {
+    (d - 1).min(k.saturating_sub(1))
+}
+
+/// Exact leaf distribution of the model for depth parameter d: count of (order, change-point set)
+/// pairs per leaf, and the total number of pairs.
+pub fn model_distribution(pi: &ProgInfo, d: usize, perms: &[Vec<u8>], states: &mut u64, transitions: &mut u64) -> (Vec<u64>, u64) {
+    let sets = change_point_sets(pi.k, num_points(d, pi.k));
+    let mut cnt = vec![0u64; pi.leaves.len()];
+    let mut total = 0u64;
+    for o in perms {
+        for cps in &sets {
+            let l = pi.model_leaf(o, cps, transitions);
+            cnt[l as usize] += 1;
+            total += 1;
+            *states += 1;
+        }
+    }
+    (cnt, total)
+}
+
+#[derive(Clone, Debug)]
+pub struct Bug {
+    pub constraints: Vec<Constraint>,
+    pub leaves: u128,
+    /// minimal number of ordering constraints that guarantee the bug
+    pub depth: usize,
+}
+
+/// All distinct bugs "the schedules satisfying C" for constraint sets of size <= maxc, with their
+/// exact depth (the least number of constraints whose non-empty satisfying set lies inside the bug).
+pub fn bugs(pi: &ProgInfo, maxc: usize) -> Vec<Bug> {
+    let cons = pi.constraints();
+    let sats: Vec<u128> = cons.iter().map(|c| pi.sat(c)).collect();
+    // satisfying sets of all constraint sets of size 1..=maxc (indices ascending)
+    let mut by_size: Vec<Vec<(Vec<usize>, u128)>> = vec![Vec::new(); maxc + 1];
+    for i in 0..cons.len() {
+        if sats[i] != 0 {
+            by_size[1].push((vec![i], sats[i]));
+        }
+    }
+    for sz in 2..=maxc {
+        let prev = by_size[sz - 1].clone();
+        for (idx, s) in prev {
+            let last = *idx.last().unwrap();
+            for j in last + 1..cons.len() {
+                let s2 = s & sats[j];
+                if s2 != 0 {
+                    let mut i2 = idx.clone();
+                    i2.push(j);
+                    by_size[sz].push((i2, s2));
+                }
+            }
+        }
+    }
+    let mut seen: BTreeSet<u128> = BTreeSet::new();
+    let mut out = Vec::new();
+    for sz in 1..=maxc {
+        for (idx, s) in &by_size[sz] {
+            if !seen.insert(*s) {
+                continue; // the same set of schedules was already produced by a set of at most this size
+            }
+            // depth: smallest size of a constraint set whose (non-empty) satisfying set is inside s
+            let mut depth = sz;
+            'outer: for sz2 in 1..sz {
+                for (_, s2) in &by_size[sz2] {
+                    if *s2 & !*s == 0 {
+                        depth = sz2;
+                        break 'outer;
+                    }
+                }
+            }
+            out.push(Bug {
+                constraints: idx.iter().map(|i| cons[*i]).collect(),
+                leaves: *s,
+                depth,
+            });
+        }
+    }
+    out
+}
